@@ -141,6 +141,55 @@ def observe_bay_aero(pd, req):
     return [[dyadic(v) for v in row] for row in A], ok
 
 
+def exact(x):
+    """the exact rational value of a double"""
+    n, d = float(x).as_integer_ratio()
+    return rat(Fraction(n, d))
+
+
+ANGLES = {0.0: [0, 1], 90.0: [1, 0], 45.0: [1, 1], -45.0: [-1, 1]}
+
+
+def pd_from_panel(p, model=None):
+    """panel description (exact rationals) of a real Panel object whose inputs are exactly representable"""
+    ex = lambda x: exact(0.0 if x is None else x)
+    inv = {v: k for k, v in MODELS.items()}
+    mo = model or inv[p.model]
+    plyts = p.plyts if p.plyts else [p.plyt] * len(p.stack)
+    props = p.laminaprops if p.laminaprops else [p.laminaprop] * len(p.stack)
+    fl = [[[ex(getattr(p, "%s%s%s" % (d, nm, ax))) for nm in ("1t", "1r", "2t", "2r")] for ax in ("x", "y")]
+          for d in "uvw"]
+    return dict(model=mo, a=ex(p.a), b=ex(p.b), r=ex(p.r if mo == "cpanel" else 0.0), sina=rat(0), cosa=rat(1),
+                m=int(p.m), n=int(p.n), fl=fl,
+                stack=[dict(dir=ANGLES[float(t)], t=ex(th), mat=[ex(v) for v in pr])
+                       for t, th, pr in zip(p.stack, plyts, props)],
+                off=ex(p.offset), y1=rat(0), y2=ex(p.b), mu=ex(p.mu if p.mu is not None else 1.0), Ncte=[rat(0)] * 3)
+
+
+
+def repo_scenarios():
+    """panel definitions of the repository's own tests (test_panel_lb / test_panel_freq / test_panel_field_outputs):
+    decimal inputs such as 0.125e-3 or 0.28 are validated as the exact rationals their doubles are"""
+    from compmech.panel import Panel
+    out = []
+    for model in ("plate", "plate_w", "cpanel", "kpanel"):
+        for edge in ("ssss", "ssfs"):
+            p = Panel()
+            if edge == "ssfs":
+                p.u2ty = p.v2ty = p.w2ty = p.u2ry = p.v2ry = 1
+            p.m, p.n = 5, 4
+            p.stack = [0, 90, -45, +45]
+            p.plyt = 0.125e-3
+            p.laminaprop = (142.5e9, 8.7e9, 0.28, 5.1e9, 5.1e9, 5.1e9)
+            p.model = MODELS[model]
+            p.a, p.b, p.r, p.alphadeg, p.mu = 1., 0.5, 1.e8, 0., 1.3e3
+            pd = pd_from_panel(p, model=model)
+            if model in ("cpanel", "kpanel"):
+                pd["r"] = exact(1.e8)
+            out.append(pd)
+    return out
+
+
 def _fin(M):
     """the assembling route: kernels' upper triangle symmetrised by the package's own finalize_symmetric_matrix"""
     from compmech.sparse import finalize_symmetric_matrix
@@ -596,7 +645,19 @@ def run_prop(prop, qs, tier, seed, build, nrand_quick=40, nrand_thorough=600, wh
             # these quantify over whole panels (no sub-interval variant of the kernels)
             pd["y1"], pd["y2"] = rat(0), pd["b"]
         rnd.append((pd, r))
-    for k, (pd, r) in enumerate(pairs + rnd):
+    scen = []
+    if set(qs) & {"k0", "kG0", "kM"}:          # the repository's own test scenarios (exact values of their decimal inputs)
+        for pd in repo_scenarios():
+            for q in qs:
+                if q == "k0":
+                    scen.append((pd, dict(q="k0")))
+                elif q == "kG0":
+                    scen.append((pd, dict(q="kG0", N=[rat(-60), rat(-5), rat(0)])))
+                elif q == "kM":
+                    scen.append((pd, dict(q="kM")))
+        if tier == "quick":
+            scen = scen[::2]
+    for k, (pd, r) in enumerate(pairs + rnd + scen):
         r = jreq(r)
         if k < len(pairs):
             if k % 3 == 1:
